@@ -841,6 +841,16 @@ class Association(threading.Thread):
         rsp.AffectedSOPInstanceUID = req.AffectedSOPInstanceUID
         rsp.AffectedSOPClassUID = req.AffectedSOPClassUID
 
+        # As in _serve_request(): a request received on a presentation context
+        #   that wasn't accepted isn't passed to the handler or answered
+        if req._context_id not in self._accepted_cx:
+            LOGGER.info(
+                "Received DIMSE message with invalid or rejected "
+                f"context ID: {req._context_id}"
+            )
+            self.abort()
+            return
+
         try:
             context = self._get_valid_context(
                 cast(UID, req.AffectedSOPClassUID),
